@@ -18,7 +18,7 @@ import z3
 from . import smt
 from .smt import Ctx, fresh_int, fresh_bool, fresh_arr, iv, is_conc_int
 from . import values as V
-from .values import (NONE, VBool, VConst, VDict, VExc, VInt, VList, VNone, VObj, VOpt, VStr, VStream, VSymCache, VTuple,
+from .values import (NONE, VBool, VConst, VDict, VExc, VInt, VList, VNone, VObj, VOpt, VSeg, VSList, VStr, VStream, VSymCache, VTuple,
                      Unsupported, lit)
 
 REPO = os.environ.get("PYVC_REPO", "/repo")
@@ -78,7 +78,7 @@ class St:
     def tr(self, v, depth=0):
         """the copy, in this state, of a heap object that was obtained in an ancestor state
         (values computed before a fork must be re-targeted to the fork's own heap)"""
-        if isinstance(v, (VObj, VDict, VList, VSymCache)):
+        if isinstance(v, (VObj, VDict, VList, VSymCache, VSList)):
             seen = 0
             while id(v) in self.remap and seen < 64:
                 v = self.remap[id(v)][1]
@@ -154,6 +154,12 @@ def _clone(v, memo):
         return n
     if isinstance(v, VTuple):
         return VTuple([_clone(x, memo) for x in v.items])
+    if isinstance(v, VSList):
+        if id(v) in memo:
+            return memo[id(v)][1]
+        n = VSList(v.view, v.fresh)
+        memo[id(v)] = (v, n)
+        return n
     if isinstance(v, VSymCache):
         if id(v) in memo:
             return memo[id(v)][1]
@@ -362,6 +368,10 @@ class Executor:
             return v.hi > v.lo
         if isinstance(v, (VTuple, VList)):
             return z3.BoolVal(len(v.items) > 0)
+        if isinstance(v, VSList):
+            return v.view.len() > 0
+        if isinstance(v, VSeg):
+            return v.t != 0            # only the empty segment is falsy
         if isinstance(v, VDict):
             return z3.BoolVal(len(v.d) > 0)
         if isinstance(v, VConst):
@@ -1104,6 +1114,16 @@ class Executor:
             return z3.BoolVal(isinstance(l, VNone) and isinstance(r, VNone))
         if isinstance(l, VInt) and isinstance(r, VInt):
             return l.t == r.t
+        if isinstance(l, VSeg) or isinstance(r, VSeg):
+            def sid(x):
+                if isinstance(x, VSeg):
+                    return x.t
+                if isinstance(x, VStr) and x.conc is not None:
+                    return iv(V.seg_id(x.conc))
+                raise Unsupported(f"segment compared with {x!r}")
+            return sid(l) == sid(r)
+        if isinstance(l, VSList) and isinstance(r, VSList):
+            return V.str_eq(st.ctx, l.view, r.view)
         if isinstance(l, VBool) and isinstance(r, VBool):
             return l.t == r.t
         if isinstance(l, VBool) and isinstance(r, VInt):
@@ -1346,6 +1366,17 @@ class Executor:
                 else:
                     yield Raised(VExc(IndexError)), s2
             return
+        if isinstance(base, VSList):
+            v = base.view
+            n = v.len()
+            ok = z3.And(idx.t >= -n, idx.t < n)
+            for kind, s2 in self.raise_or_oblige(st, IndexError, ok, "index-in-range", node):
+                if kind == "ok":
+                    j = V.name_term(s2.ctx, z3.If(idx.t < 0, idx.t + n, idx.t), "li")
+                    yield VSeg(v.a[V.name_term(s2.ctx, v.lo + j, "li")]), s2
+                else:
+                    yield Raised(VExc(IndexError)), s2
+            return
         if isinstance(base, (VTuple, VList)):
             ci = idx.conc() if isinstance(idx, VInt) else None
             if ci is None:
@@ -1458,7 +1489,7 @@ class Executor:
             if m is not None:
                 return m
             raise Unsupported(f"attribute {name} of {base.cls}")
-        if isinstance(base, (VStr, VList, VDict, VTuple, VSymCache, VStream)):
+        if isinstance(base, (VStr, VList, VDict, VTuple, VSymCache, VStream, VSList)):
             return BoundMethod(base, name)
         if isinstance(base, VConst):
             cls = type(base.obj)
@@ -2146,6 +2177,8 @@ class Executor:
             return None
         if isinstance(it, (VTuple, VList)):
             return list(it.items)
+        if isinstance(it, VSList):
+            return None
         if isinstance(it, VConst) and isinstance(it.obj, (tuple, list, range, frozenset)):
             return [self.wrap(x) for x in it.obj]
         raise Unsupported(f"iteration over {it!r}")
@@ -2180,10 +2213,14 @@ class Executor:
         return self.loop_specs.get((self.cur_func, ords.get((node.lineno, node.col_offset))))
 
     def assigned_names(self, stmts):
+        """names re-bound in the statements, and names of objects mutated in place by a method"""
         names = set()
         for n in ast.walk(ast.Module(body=list(stmts), type_ignores=[])):
             if isinstance(n, ast.Name) and isinstance(n.ctx, ast.Store):
                 names.add(n.id)
+            if isinstance(n, ast.Call) and isinstance(n.func, ast.Attribute) and isinstance(n.func.value, ast.Name) \
+                    and n.func.attr in ("append", "extend", "pop", "reverse", "clear", "insert", "remove", "sort"):
+                names.add(n.func.value.id)
         return names
 
     def havoc(self, st, name, cur):
@@ -2193,6 +2230,10 @@ class Executor:
             return VBool(fresh_bool(name))
         if isinstance(cur, VStr):
             return V.fresh_str(st.ctx, name, cur.kind)
+        if isinstance(cur, VSList):
+            return VSList(V.fresh_str(st.ctx, name, "segs"), cur.fresh)
+        if isinstance(cur, VList) and not getattr(cur, "bytes", False):
+            return VSList(V.fresh_str(st.ctx, name, "segs"), cur.fresh)
         raise Unsupported(f"cannot havoc {name} = {cur!r}")
 
     def loop_with_invariant(self, s, it, st):
@@ -2200,8 +2241,12 @@ class Executor:
         spec = self.loop_spec(s)
         if spec is None:
             raise Unsupported(f"loop without invariant at {self.where(s)}")
+        seglist = isinstance(it, VSList)
+        if seglist:
+            st.env["__list"] = it
+            it = it.view
         if not isinstance(it, VStr):
-            raise Unsupported("invariant loops iterate over strings")
+            raise Unsupported("invariant loops iterate over strings or segment lists")
         n = it.len()
         # 1. entry
         st.env["__k"] = VInt(0)
@@ -2218,15 +2263,23 @@ class Executor:
             for nm in names:
                 if nm in body_st.env:
                     body_st.env[nm] = self.havoc(body_st, nm, body_st.env[nm])
+                    if isinstance(body_st.env[nm], VSList):
+                        body_st.env["OLD_" + nm] = VSList(body_st.env[nm].view, fresh=False)
             body_st.env["__k"] = VInt(k)
             body_st.assume(z3.And(0 <= k, k < n))
             body_st.ctx.bound(it.lo + k, it.lo + k + 1)
             body_st.assume(spec.invariant(self, body_st))
-            self.assign(body_st, s.target, V.char_at(body_st.ctx, it, k))
+            if seglist:
+                self.assign(body_st, s.target, VSeg(it.a[V.name_term(body_st.ctx, it.lo + k, "li")]))
+            else:
+                self.assign(body_st, s.target, V.char_at(body_st.ctx, it, k))
             for flow, val, s2 in self.exec_block(s.body, 0, body_st):
                 if flow in ("next", "continue"):
                     s2.env["__k"] = VInt(k + 1)
                     self.oblige(s2, "loop-invariant-preserved", "inv-step", spec.invariant(self, s2), s)
+                    if spec.step_post is not None:
+                        self.oblige(s2, "loop-step-conforms-to-specification-step", "inv-step",
+                                    self.truth(s2, spec._eval(self, s2, spec.step_post)), s)
                 elif flow == "break":
                     s2.env.pop("__k", None)
                     yield "next", None, s2
